@@ -54,6 +54,26 @@ theorem served_config_never_pairs_credentials_with_all (cfg : Config) (dm : List
   rw [← build_allowAll cfg dm bt h]
   cases hc : bt.cfg.credentials <;> cases hA : bt.allowAll <;> simp_all
 
+/-- **Statelessness (the hypothesis the history cases check on the real code).** In the model the
+    reply to a request is the handler's answer to that request alone … -/
+theorem replyAfter_eq_handle (bt : Built) (pre : List Request) (q : Request) :
+    replyAfter bt pre q = handle bt q := by
+  unfold replyAfter serve
+  simp [List.getLastD_eq_getLast?]
+
+/-- … so it is a function of (configuration, request) only: whatever was served before on the same
+    app, connection or request context does not change it. The harness serves generated histories
+    (same-length origins of alternating verdicts on one reused `fasthttp.RequestCtx`) and every
+    position is compared with, and judged as, the single request. -/
+theorem reply_is_function_of_config_and_request (bt : Built) (pre pre' : List Request) (q : Request) :
+    replyAfter bt pre q = replyAfter bt pre' q := by
+  rw [replyAfter_eq_handle, replyAfter_eq_handle]
+
+/-- hence every position of every history meets the property -/
+theorem history_meets_spec (cfg : Config) (dm : List Bytes) (bt : Built) (h : build cfg dm = some bt)
+    (pre : List Request) (q : Request) : specViolation bt.cfg q (replyAfter bt pre q) = none := by
+  rw [replyAfter_eq_handle]; exact handle_meets_spec cfg dm bt h q
+
 /-- Non-vacuity: a configuration with upper case, blanks, userinfo, a port, a wildcard entry and an
     IPv6 literal is accepted by `New`; the origins the texts denote are allowed, a look-alike host,
     an origin with a path and an origin with userinfo are not. -/
